@@ -72,6 +72,9 @@ pub(crate) fn symbol_exact<'a>(t: &'a str) -> impl FnMut(Span<'a>) -> IResult<Sp
 #[cfg(not(feature = "trace"))]
 pub(crate) fn keyword<'a>(t: &'a str) -> impl FnMut(Span<'a>) -> IResult<Span<'a>, Keyword> {
     move |s: Span<'a>| {
+        if !is_reserved_in_force(t) {
+            return Err(Err::Error(make_error(s, ErrorKind::Fix)));
+        }
         let (s, x) = map(
             ws(alt((
                 all_consuming(map(tag(t), into_locate)),
@@ -444,6 +447,21 @@ pub(crate) fn is_keyword(s: &Span) -> bool {
         }
     }
     false
+}
+
+/// A word that is reserved in IEEE 1800-2017 but not in the keyword set selected by
+/// an open `begin_keywords region is an ordinary identifier there, not a keyword.
+pub(crate) fn is_reserved_in_force(t: &str) -> bool {
+    let keywords = match current_version() {
+        Some(Version::Ieee1364_1995) => KEYWORDS_1364_1995,
+        Some(Version::Ieee1364_2001) => KEYWORDS_1364_2001,
+        Some(Version::Ieee1364_2001Noconfig) => KEYWORDS_1364_2001_NOCONFIG,
+        Some(Version::Ieee1364_2005) => KEYWORDS_1364_2005,
+        Some(Version::Ieee1800_2005) => KEYWORDS_1800_2005,
+        Some(Version::Ieee1800_2009) => KEYWORDS_1800_2009,
+        _ => return true,
+    };
+    keywords.contains(&t) || !KEYWORDS_1800_2017.contains(&t)
 }
 
 pub(crate) fn into_locate(s: Span) -> Locate {
